@@ -19,6 +19,7 @@ Observation only:
   by whom.  Never contains values, lengths or seeds.
 """
 import os
+import re
 import socket
 import threading
 import traceback
@@ -49,8 +50,28 @@ def harness_fault(exc):
     return bool(fr) and fr[-1].filename.startswith(_VF_ROOT)
 
 
+_IDENT = re.compile(r"'([A-Za-z_][A-Za-z0-9_.]*)'")
+
+
+def _named(exc):
+    """For exceptions whose message names a program identifier (not data), keep
+    it: `origin_addr` vs `reason` in the same function are different defects."""
+    if isinstance(exc, (UnboundLocalError, NameError)):
+        m = _IDENT.findall(str(exc))
+        return "[%s]" % m[-1] if m else ""
+    if isinstance(exc, AttributeError):
+        m = _IDENT.findall(str(exc))
+        return "[%s]" % ".".join(m[-2:]) if m else ""
+    return ""
+
+
 def signature(exc, tree=None):
     base = core.exc_signature(exc, tree)
+    if "->" in base:
+        head, callee = base.split("->", 1)
+        base = head + _named(exc) + "->" + callee
+    else:
+        base += _named(exc)
     root = os.path.join(tree or core.TREE, "paramiko") + os.sep
     pf = [f for f in _frames(exc) if f.filename.startswith(root)]
     if not pf:
